@@ -55,6 +55,9 @@ const (
 	// The number of bits of short node is decided during creating.
 	maxShortSize = int32(10)
 
+	// maxStep is the max number of 4-bit words a step can record.
+	maxStep = int32(0xffff)
+
 	// maxWordSize is the longest bit to look forward when creating.
 	maxWordSize = int32(24)
 )
